@@ -461,13 +461,20 @@ def run(repo: Repo, rep: Report, tier: str) -> None:
         n_loops += 1
         t = w.test
         m = match("VAR_c != project_root", t)
+        if m is None:
+            # the compare-only branch builds the same package structure below its temporary root
+            m2 = match("VAR_c != VAR_r", t)
+            if m2 is not None:
+                rroots = Provenance(gen).roots(ast.Name(id=m2["VAR_r"], ctx=ast.Load()))
+                if ("call", "tempfile.TemporaryDirectory") in rroots or ("call", "tempfile.mkdtemp") in rroots:
+                    m = m2
         stops = m is not None
         var = m["VAR_c"] if m else "?"
         steps = [n for n in own_nodes(w) if isinstance(n, ast.Assign) and norm(n.targets[0]) == var and norm(n.value) == f"{var}.parent"]
         only_init = all("__init__.py" in norm(_def_of(gen, c.func.value)) for c in writes)  # type: ignore[union-attr]
         sub = f"{gen.module.relpath}:generate ancestor __init__ loop L{w.lineno}"
         if stops and steps and only_init:
-            rep.ok("R10.3", sub, f"walks `{var}` upward by .parent, stops at project_root, writes only missing __init__.py", gen.loc(w))
+            rep.ok("R10.3", sub, f"walks `{var}` upward by .parent, stops at `{norm(t.comparators[0])}`, writes only missing __init__.py", gen.loc(w))
         else:
             rep.violation("R10.3", sub, f"{gen.fq}|init-loop|stops={stops}",
                           f"ancestor loop does not stop at project_root / writes something else (stops={stops}, steps={bool(steps)}, only_init={only_init})", gen.loc(w))
